@@ -148,3 +148,24 @@ func VerifRecover(items []VerifRecoverItem, errKind int, hasStore bool, retryMod
 	}
 	return class, seqs, committed, app.sizes
 }
+
+// VerifCompletionDrain feeds append completions with the given batch sequence numbers, in the given
+// ARRIVAL order, to a real channelState exactly as applyAppendCompletion does (recordAppendCompletion, then
+// the popNextAppendCompletion loop) and returns, per arrival, the batch sequence numbers drained.
+func VerifCompletionDrain(arrivals []uint64) [][]uint64 {
+	st := newChannelState(AuthorityTarget{}, channelStateLimits{})
+	out := make([][]uint64, 0, len(arrivals))
+	for _, seq := range arrivals {
+		st.recordAppendCompletion(appendCompletedEvent{seq: seq})
+		var drained []uint64
+		for {
+			ev, ok := st.popNextAppendCompletion()
+			if !ok {
+				break
+			}
+			drained = append(drained, ev.seq)
+		}
+		out = append(out, drained)
+	}
+	return out
+}
